@@ -32,7 +32,7 @@ class CSVSearchRecorder(SearchRecorder):
                 "Phenotype": lambda t, i, _: i.get_phenotype(),
             }
             for comp in range(problem.number_of_objectives()):
-                self.fields[f"Fitness{comp}"] = lambda t, i, p: i.get_fitness(p).fitness_components[comp]
+                self.fields[f"Fitness{comp}"] = lambda t, i, p, comp=comp: i.get_fitness(p).fitness_components[comp]
         if extra_fields is not None:
             for name in extra_fields:
                 self.fields[name] = extra_fields[name]
